@@ -248,7 +248,7 @@ func checkC20(c *Check) {
 		c.serveShutdown("C20.2 start-stop-symmetry")
 	}
 	// accept sets of the validators
-	if fn := p.Fn("PeerConfig.validate"); fn != nil && len(fn.Params) == 2 {
+	if fn := p.Fn("PeerConfig.validate"); fn != nil && c.sig("C20.4 config-accept-set", fn, 2) {
 		remoteValid := func(e *Expr) bool {
 			return isCallNamed(e, "netip.Addr.IsValid") && strings.Contains(e.Key, "RemoteAddress")
 		}
